@@ -5976,6 +5976,14 @@ class CodegenCtx:
             result.add(f"return {self.program_name.upper()}_OK;")
         return result.value()
 
+    def _emitted_transitions_pointing_to(self, state: DFState):
+        """
+        All transitions pointing to state among the states code is generated for (which, without
+        remove-inaccessible-states, includes states dfa.transitions_pointing_to does not visit)
+        """
+
+        return [t for source in self.dfa.states for t in source.transitions if t.target == state]
+
     def _needs_end_check(self):
         if ProgramData.do(ProgramFlag.ZERO_LEN_INPUT_SUPPORT):
             return True
@@ -6006,11 +6014,11 @@ class CodegenCtx:
                 # Emit the case label
                 contents.add(f"case {idx}:")
                 # Emit goto target for fallthroughs if anything falls here (these are separate to make it slightly easier to read)
-                if any(x.is_fallthrough and self._transition_will_directly_jump(x, excl_fall=True) for x in self.dfa.transitions_pointing_to(state)):
+                if any(x.is_fallthrough and self._transition_will_directly_jump(x, excl_fall=True) for x in self._emitted_transitions_pointing_to(state)):
                     contents.add(f"fall_{idx}:")
                 # If any transition can directly jump into this case, emit a label for it to do so. We don't really _need_ these checks
                 # but gcc complains about unused labels in -Wall.
-                if any(self._transition_will_directly_jump(x) for x in self.dfa.transitions_pointing_to(state) if x.on_values != {DFTransition.End}):
+                if any(self._transition_will_directly_jump(x) for x in self._emitted_transitions_pointing_to(state) if x.on_values != {DFTransition.End}):
                     contents.add(f"jpto_{idx}:")
                 with contents as state_body:
                     # Is this a normal state
@@ -6060,7 +6068,7 @@ class CodegenCtx:
                 # Emit the case label
                 contents.add(f"case {idx}:")
                 # Emit goto target for fallthroughs if anything falls here (these are separate to make it slightly easier to read)
-                if any(x.is_fallthrough for x in self.dfa.transitions_pointing_to(state)):
+                if any(x.is_fallthrough for x in self._emitted_transitions_pointing_to(state)):
                     contents.add(f"fall_{idx}:")
                 with contents as state_body:
                     # Is this a normal state
